@@ -1557,6 +1557,15 @@ func runC18(e *Env) {
 	}
 	R.SetExtra("sequences", map[string]any{"checked": len2(st.SeqLens), "decoded_to_same_sequence": st.SeqOK, "records_total": st.SeqRecords,
 		"with_header_first": st.SeqHeaders, "min_records": minL, "max_records": maxL, "distinct_lengths": len(st.SeqLens)})
+	histOK, histBad := 0, 0
+	for _, n := range st.Hist {
+		histOK += n
+	}
+	for _, n := range st.HistBad {
+		histBad += n
+	}
+	R.SetExtra("histories_of_near_duplicates", map[string]any{"variants": c18HistVariants, "every_step_round_tripped": histOK, "with_a_failing_step": histBad,
+		"steps_total": st.HistSteps, "by_record_type_and_variant": st.Hist, "failing_by_record_type_and_variant": st.HistBad})
 	R.SetExtra("execution", map[string]any{"shard_processes": c18Shards, "address_space_limit_mib": c18AddrLimit >> 20, "decoder_crashes_by_case_class": crashes,
 		"shards_abandoned": abandoned, "a_shard_stopped_early_after_many_violations": st.Aborted})
 	R.SetExtra("not_covered", "JSON headers near the 32-bit length limit (largest header see largest_manifest_json_bytes); bitmaps above 1 MiB + 1; pkg/protocol.Envelope (signaling JSON, not one of the records the property quantifies over)")
@@ -1574,6 +1583,18 @@ func runC18(e *Env) {
 	R.Require(okKinds == len(c18Kinds), fmt.Sprintf("only %d of %d record types had a value that round-tripped", okKinds, len(c18Kinds)))
 	R.Require(broken || total >= nValues*9/10, fmt.Sprintf("only %d values round-tripped (planned %d random + boundaries)", total, nValues))
 	R.Require(broken || len2(st.SeqLens) >= nSeq*9/10, fmt.Sprintf("only %d sequences checked (planned %d)", len2(st.SeqLens), nSeq))
+	// every (record type, history variant) pair must have been run to the end at least once
+	var histMissing []string
+	for _, k := range c18Kinds {
+		for _, v := range c18HistVariants {
+			if st.Hist[k+":"+v]+st.HistBad[k+":"+v] == 0 {
+				histMissing = append(histMissing, k+":"+v)
+			}
+		}
+	}
+	R.Require(broken || len(histMissing) == 0, fmt.Sprintf("no history of near-duplicate values was evaluated for %v", histMissing))
+	R.Require(broken || histOK+histBad >= c18HistReps(e.Tier)*len(c18Kinds)*len(c18HistVariants)*9/10,
+		fmt.Sprintf("only %d histories evaluated (planned %d)", histOK+histBad, c18HistReps(e.Tier)*len(c18Kinds)*len(c18HistVariants)))
 	unexpectedMiss := 0
 	for _, k := range missed {
 		if !strings.HasSuffix(k, "/invalid-utf8") { // expected while the known finding exists
